@@ -505,6 +505,8 @@ def v_eq(a, b):
     if a is None or b is None:
         return a is None and b is None
     if isinstance(a, Fl) or isinstance(b, Fl):
+        if not ((isinstance(a, Fl) or is_int(a) or is_bool(a)) and (isinstance(b, Fl) or is_int(b) or is_bool(b))):
+            return False
         return R(a) == R(b)
     if is_int(a) and is_int(b) or (is_bool(a) and is_int(b)) or (is_int(a) and is_bool(b)):
         if not is_z3(a) and not is_z3(b):
